@@ -116,6 +116,12 @@ func (u *Unit) callFunction(fc *frameCtx, fn *ssa.Function, args []*SV, st *Stat
 		name = fn.Origin().String()
 	}
 	con := u.e.contracts[name]
+	if con == nil && isDeepCopy(fn) {
+		if spec {
+			specFail("DeepCopy used in a specification")
+		}
+		return u.deepCopyCall(fn, args, st, pc)
+	}
 	if con != nil && con.Transparent || con == nil && u.e.autoTransparent(fn) {
 		if con != nil {
 			u.usedContracts[name] = true
@@ -461,23 +467,33 @@ func (u *Unit) addModifies(fr *FrameSpec, env *SpecEnv, m Expr) {
 	}
 	v := env.evalLazy(m)
 	// *p / p.f / s[i]: an lvalue -> its leaves; a pointer-typed rvalue p -> leaves of *p
+	withCond := func(locs []leafLoc, cond *Term) []leafLoc {
+		for i := range locs {
+			locs[i].Cond = cond
+		}
+		return locs
+	}
 	if un, ok := m.(*EUnary); ok && un.Op == "*" {
 		var locs []leafLoc
 		u.leafAddrs(v.addr, v.t, &locs)
-		fr.Leaves = append(fr.Leaves, locs...)
+		fr.Leaves = append(fr.Leaves, withCond(locs, v.def)...)
 		return
 	}
 	if v.addr != nil && v.t != nil {
 		var locs []leafLoc
 		u.leafAddrs(v.addr, v.t, &locs)
-		fr.Leaves = append(fr.Leaves, locs...)
+		fr.Leaves = append(fr.Leaves, withCond(locs, v.def)...)
 		return
 	}
 	if pt, ok := derefType(v.t); ok {
 		v = env.force(v)
 		var locs []leafLoc
 		u.leafAddrs(v.v.T, pt, &locs)
-		fr.Leaves = append(fr.Leaves, locs...)
+		nn := c.Neq(v.v.T, c.Nil())
+		if v.def != nil {
+			nn = c.And(v.def, nn)
+		}
+		fr.Leaves = append(fr.Leaves, withCond(locs, nn)...)
 		return
 	}
 	specFail("modifies: %s is not a location", exprString(m))
@@ -516,7 +532,11 @@ func (u *Unit) checkCalleeFrame(fc *frameCtx, pc *Term, fr *FrameSpec, name stri
 			props = append(props, c.Or(alts...))
 		}
 		for _, l := range fr.Leaves {
-			props = append(props, u.allowedBy(cx.fr, cx.bound, l))
+			ok := u.allowedBy(cx.fr, cx.bound, l)
+			if l.Cond != nil {
+				ok = c.Implies(l.Cond, ok)
+			}
+			props = append(props, ok)
 		}
 		for _, m := range fr.Maps {
 			alts := []*Term{c.Ge(c.Root(m), cx.bound)}
